@@ -1,0 +1,9 @@
+//go:build verif
+
+// Contracts for package io/fs/permissions (comment-only; read by /verif/govc).
+
+package permissions
+
+// The OS-level check (a no-op without the linuxacl build tag) changes nothing.
+//@ func ToRead
+//@   assigns nothing
